@@ -2,7 +2,10 @@ package c14
 
 import (
 	"context"
+	"encoding/json"
 	"fmt"
+	"go4.org/jsonconfig"
+	"perkeep.org/pkg/blobserver"
 	"sync"
 	"sync/atomic"
 	"testing"
@@ -14,8 +17,8 @@ import (
 
 	"verifharness/internal/evid"
 	"verifharness/internal/vsign"
-	"verifharness/internal/vworld"
 	"verifharness/internal/vwatch"
+	"verifharness/internal/vworld"
 )
 
 // TestConcurrentIndexingWhileQueried: the index half of C14. Several goroutines feed a generated world
@@ -145,5 +148,155 @@ func TestConcurrentIndexingWhileQueried(t *testing.T) {
 		}
 		live.Release()
 		ref.Release()
+	})
+}
+
+type idxLoader struct{ ix *index.Index }
+
+func (l idxLoader) FindHandlerByType(string) (string, any, error) {
+	return "", nil, blobserver.ErrHandlerTypeNotFound
+}
+func (l idxLoader) AllHandlers() (map[string]string, map[string]any) { return nil, nil }
+func (l idxLoader) MyPrefix() string                                 { return "/my-search/" }
+func (l idxLoader) BaseURL() string                                  { return "http://verif.invalid" }
+func (l idxLoader) GetHandlerType(string) string                     { return "" }
+func (l idxLoader) GetStorage(p string) (blobserver.Storage, error) {
+	return nil, fmt.Errorf("no storage %q", p)
+}
+func (l idxLoader) GetHandler(p string) (any, error) {
+	if p == "/index/" {
+		return l.ix, nil
+	}
+	return nil, fmt.Errorf("no handler %q", p)
+}
+
+// describeAll asks h for every permanode with its description, as the web UI does, and returns a
+// canonical text per blob.
+func describeAll(h *search.Handler) (map[string]string, error) {
+	res, err := h.Query(context.Background(), &search.SearchQuery{
+		Constraint: &search.Constraint{Permanode: &search.PermanodeConstraint{}},
+		Describe:   &search.DescribeRequest{Depth: 1},
+		Limit:      -1,
+	})
+	if err != nil {
+		return nil, err
+	}
+	out := map[string]string{}
+	for _, b := range res.Blobs {
+		out[b.Blob.String()] = ""
+	}
+	if res.Describe != nil {
+		for ref, db := range res.Describe.Meta {
+			j, _ := json.Marshal(db)
+			out[ref] = string(j)
+		}
+	}
+	return out, nil
+}
+
+// TestSearchHandlerStartsWhileBlobsArrive: the search handler is created from its configuration
+// (slurpToMemory: it loads the in-memory corpus from the index rows) while other goroutines keep feeding
+// blobs to the index. Afterwards the handler must answer like a handler freshly started over the final
+// rows: a blob that arrived during the load must not be missing from the corpus for the rest of the
+// process's life. Runs under the race detector.
+func TestSearchHandlerStartsWhileBlobsArrive(t *testing.T) {
+	evid.Check(t, 60, 300, func(t *rapid.T) {
+		cfg := vworld.Config{MaxPermanodes: 3, MaxAttrClaims: 8, MaxDeletes: 2, MaxChain: 2, MaxFiles: 1, MaxDirs: 0, MaxOpaque: 1,
+			Attrs: vworld.DefaultAttrs, Values: vworld.DefaultValues, RefValues: true}
+		w := vworld.Draw(t, cfg)
+		arriving := w.Arriving()
+		if len(arriving) < 3 {
+			t.Skip("world too small")
+		}
+		live, err := vworld.NewEnv(w, sorted.NewMemoryKeyValue(), nil)
+		if err != nil {
+			t.Fatalf("harness: %v", err)
+		}
+		defer live.Release()
+		for _, i := range arriving {
+			live.Store(i)
+		}
+		before := rapid.IntRange(0, len(arriving)-1).Draw(t, "deliveredBeforeTheHandlerStarts")
+		for _, i := range arriving[:before] {
+			if err := live.Deliver(i); err != nil {
+				t.Fatalf("harness: delivery of #%d failed: %v", i, err)
+			}
+		}
+		live.Await()
+		rest := arriving[before:]
+		var handler any
+		var herr error
+		var ferr atomic.Value
+		wr := vwatch.Run(func() {
+			var wg sync.WaitGroup
+			wg.Add(2)
+			go func() {
+				defer wg.Done()
+				handler, herr = blobserver.CreateHandler("search", idxLoader{live.Ix}, jsonconfig.Obj{
+					"index": "/index/", "slurpToMemory": true,
+					"owner": map[string]any{"identity": vsign.Test().KeyID, "secringFile": vsign.TestSecring},
+				})
+			}()
+			go func() {
+				defer wg.Done()
+				for _, i := range rest {
+					if err := live.Deliver(i); err != nil {
+						ferr.Store(fmt.Sprintf("delivery of blob #%d failed: %v", i, err))
+					}
+				}
+			}()
+			wg.Wait()
+			live.Await()
+		})
+		if wr.TimedOut {
+			if wr.Parked {
+				t.Fatalf("C14 violated: %s", wr.Describe("starting the search handler while blobs arrive (deadlock)"))
+			}
+			t.Fatalf("%s", wr.Describe("starting the search handler while blobs arrive"))
+		}
+		if herr != nil {
+			t.Fatalf("harness: CreateHandler(search): %v", herr)
+		}
+		if e := ferr.Load(); e != nil {
+			t.Fatalf("C14 violated: %v\nworld: %v", e, w.Summary())
+		}
+		got, err := describeAll(handler.(*search.Handler))
+		if err != nil {
+			t.Fatalf("C14 violated: query of the handler started during the arrivals failed: %v", err)
+		}
+		// a handler started now, over the same rows
+		ix2, err := index.New(live.KV)
+		if err != nil {
+			t.Fatalf("harness: %v", err)
+		}
+		ix2.InitBlobSource(live.Src)
+		c2, err := ix2.KeepInMemory()
+		if err != nil {
+			t.Fatalf("harness: %v", err)
+		}
+		h2 := search.NewHandler(ix2, index.NewOwner(vsign.Test().KeyID, vsign.Test().Ref))
+		h2.SetCorpus(c2)
+		want, err := describeAll(h2)
+		if err != nil {
+			t.Fatalf("harness: query of the fresh handler failed: %v", err)
+		}
+		evid.R.Eval()
+		evid.R.Label("index/search-handler-started-during-arrivals")
+		if len(rest) >= 2 {
+			evid.R.NonTrivial(evid.Hash("startup", w.Hash(), before))
+		}
+		for ref, d := range want {
+			if g, ok := got[ref]; !ok || g != d {
+				t.Fatalf("C14 violated: the search handler that loaded its corpus while %d blobs were still arriving answers differently from a handler started afterwards over the same rows, about %s:\n  started during arrivals: %s (listed: %v)\n  started afterwards:      %s\nworld: %v", len(rest), ref, g, ok, d, w.Summary())
+			}
+		}
+		for ref := range got {
+			if _, ok := want[ref]; !ok {
+				t.Fatalf("C14 violated: the search handler started during the arrivals lists %s, a handler started afterwards does not\nworld: %v", ref, w.Summary())
+			}
+		}
+		if evid.R.WantSample(true) {
+			evid.R.Sample(true, map[string]any{"kind": "search-handler-start-during-arrivals", "world": w.Summary(), "delivered_before": before, "delivered_during": len(rest)})
+		}
 	})
 }
